@@ -210,6 +210,13 @@ def load_checks_presence(ctx: Ctx, rule: str) -> int:
         n += 1
         desc = "load() returns the blob of a key only after the store confirmed that it holds it"
         w = dominated(ctx, load, fb, doms)
+        if w is not None:
+            # the answer of has_blob may be held in a local (`blob_in_store = _store().has_blob(key)`, `if blob_in_store: return fetch_blob(key)`): no path reaches the
+            # fetch in a world where has_blob answered False
+            from ..propdom import feasible_path as _fp18
+            an18 = lambda e: "<present>" if isinstance(e, ast.Call) and isinstance(e.func, ast.Attribute) and e.func.attr == "has_blob" else None  # noqa: E731
+            if any(an18(y) for y in load.own_nodes()) and _fp18(prog, load, cfg, cfg.nodes_of(fb), {"<present>": False}, an18) is None:
+                w = None
         if w is None:
             rep.ok(rule, load.qname, desc, load.loc(fb))
         else:
@@ -928,6 +935,10 @@ def load_prefers_own_paths(ctx: Ctx, rule: str) -> int:
         st = prog.enclosing_stmt(load.module, x)
         desc = f"load consults `{unparse(x, 40)}` only after the paths produced by this evaluation (`{pmf}`)"
         p = cfg.find_path([cfg.entry], cfg.nodes_of(st), avoid=own_nodes)
+        if p is not None:
+            # (an exit test repeated in front of each look-up - `if ctx is None: key = None` - skips them together: read along the paths)
+            from ..propdom import feasible_path as _fp22
+            p = _fp22(prog, load, cfg, cfg.nodes_of(st), {}, None, avoid=own_nodes)
         if p is None:
             rep.ok(rule, load.qname, desc, load.loc(x))
         else:
